@@ -181,6 +181,11 @@ pub struct KeyGen {
     pub fill_target: Option<usize>,
     pub fill_pct: u64,
     pub clear_after_fill: bool,
+    /// "forest" plan: a large tree (20-200 entries) whose expirations fall on a handful of
+    /// instants, built without any query; then the clock lands on one of those instants and a
+    /// burst of queries meets many expired nodes at once, deep inside the tree
+    pub forest: u8, // 0 = off, 1 = building, 2 = burst
+    pub forest_burst: u32,
     /// percent of the jumps that go (nearly) to the end of the time line
     pub far_jump_pct: u64,
     /// C12: make sure the run contains a clear (at this generated step)
@@ -263,6 +268,8 @@ impl KeyWorld {
             fill_target: None,
             fill_pct: 0,
             clear_after_fill: false,
+            forest: 0,
+            forest_burst: 0,
             far_jump_pct: 3,
             forced_clear_at: None,
             generated: 0,
@@ -317,6 +324,11 @@ impl KeyWorld {
         if r.below(100) < g.fill_pct / 2 {
             g.fill_target = Some(Self::draw_fill_target(cfg, r));
             g.clear_after_fill = r.chance(1, 3);
+        }
+        if r.chance(1, 6) && cfg.universe >= 64 {
+            g.forest = 1;
+            g.fill_target = Some(*r.pick(&[20usize, 30, 40, 60, 100, 200]));
+            g.clear_after_fill = false;
         }
         // a run in which nothing ever expires (expiration = "never" = i32::MAX), with the clock
         // allowed to reach the very end of the time line
@@ -1101,6 +1113,15 @@ impl KeyWorld {
 
     fn pick_exp(&mut self, r: &mut Rng) -> i32 {
         let t = self.now;
+        if self.gen.forest == 1 {
+            return match r.below(8) {
+                0 | 1 | 2 => t.saturating_add(1),
+                3 | 4 => t.saturating_add(2),
+                5 => t.saturating_add(3),
+                6 => t.saturating_add(1000),
+                _ => i32::MAX,
+            };
+        }
         let g = &self.gen;
         let h = match r.weighted(&g.horizon_w) {
             0 => 0,
@@ -1300,6 +1321,17 @@ impl World for KeyWorld {
             return self.gen_final_export(r);
         }
         self.gen.generated += 1;
+        if self.gen.generated == 1 && self.gen.forest == 1 {
+            // the forest must fit into this run: build phase + landing + burst
+            let room = remaining.saturating_sub(20);
+            match self.gen.fill_target {
+                Some(t) if room >= 15 => self.gen.fill_target = Some(t.min(room)),
+                _ => {
+                    self.gen.forest = 0;
+                    self.gen.fill_target = None;
+                }
+            }
+        }
         if self.gen.forced_clear_at == Some(self.gen.generated - 1) {
             let restart = if r.chance(1, 2) && self.now > 0 { r.range(0, self.now as i64 - 1) as i32 } else { -1 };
             self.gen.events.clear();
@@ -1328,6 +1360,12 @@ impl World for KeyWorld {
                 }
             }
             self.gen.fill_target = None;
+            if self.gen.forest == 1 {
+                self.gen.forest = 2;
+                self.gen.forest_burst = 12 + r.below(20) as u32;
+                self.gen.events.clear();
+                return Op::Tick { dt: 1 + r.below(3) as i32 };
+            }
             if self.gen.clear_after_fill {
                 // "fill, clear, fill again": the second fill is relative to the arena as the clear left it
                 self.gen.clear_after_fill = false;
@@ -1335,6 +1373,25 @@ impl World for KeyWorld {
                 self.gen.events.clear();
                 let restart = if r.chance(1, 3) && self.now > 0 { r.range(0, self.now as i64 - 1) as i32 } else { -1 };
                 return Op::KClear { restart };
+            }
+        }
+        if self.gen.forest == 2 {
+            if self.gen.forest_burst == 0 {
+                self.gen.forest = 0;
+            } else {
+                self.gen.forest_burst -= 1;
+                // queries of every kind over stored keys and their neighbours, a few inserts and ticks
+                let pick = r.below(10);
+                if pick < 7 {
+                    let which = *r.pick(&[W_GET, W_LESS, W_LEQ, W_LEQBY, W_LESS, W_LEQ]);
+                    let allowed = which != W_GET || self.cfg.has(O_KGET | O_MON | O_CRASH | O_TWIN | O_TORN | O_STRUCT | O_ARENA);
+                    if allowed {
+                        return self.gen_query(r, which);
+                    }
+                    return self.gen_query(r, W_LEQ);
+                } else if pick == 7 {
+                    return Op::Tick { dt: 1 };
+                }
             }
         }
         for _ in 0..8 {
